@@ -147,7 +147,7 @@ Proof.
       destruct (m1 (se_path e)) as [[? ? ?|]|]; inversion E; subst; try discriminate;
         (rewrite fs_set_other by (intro; subst; apply Hn; left; reflexivity);
          apply F1; intro Hin; apply Hn; right; apply proper_prefixes_spec; exact Hin).
-  - unfold remove in E. destruct (m (t_path t)) as [[? ? ?|]|] eqn:Ed; [| |discriminate].
+  - unfold remove in E. destruct (m (t_path t)) as [[? ? ?|]|] eqn:Ed; [| |inversion E; reflexivity].
     + inversion E; subst. apply fs_set_other. intro; subst. apply Hn. apply pprefix_spec. exists []. rewrite app_nil_r. reflexivity.
     + inversion E; subst. destruct (pprefix (t_path t) q) eqn:Ep; [exfalso; apply Hn; reflexivity | reflexivity].
 Qed.
@@ -176,22 +176,19 @@ Proof.
 Qed.
 
 (* ---------- what the task of a source entry establishes at its own path ---------- *)
-Definition needs (c : cfg) (dst : fs) (e : sentry) : bool :=
-  match t_action (plan_entry c dst e) with ASkip => false | _ => true end.
+Definition needs (c : cfg) (ds : path -> N * Z) (dst : fs) (e : sentry) : bool :=
+  match t_action (plan_entry c ds dst e) with ASkip => false | _ => true end.
 
-(* the entry as C01 wants it: the source's content and size; the source's mtime -- or, through the
-   block-delta paths (destination of at least c_big bytes), the time of the run (known finding C01-KF1) *)
-Definition file_post (c : cfg) (now : Z) (dst : fs) (e : sentry) (n : option node) : Prop :=
-  exists m, n = Some (File (se_content e) (se_size e) m) /\
-            (m = se_mtime e \/
-             (m = now /\ exists dc dsz dmt, dst (se_path e) = Some (File dc dsz dmt) /\ N.ltb dsz (c_big c) = false)).
+(* the entry as C01 wants it: the source's content, size and mtime *)
+Definition file_post (e : sentry) (n : option node) : Prop :=
+  n = Some (File (se_content e) (se_size e) (se_mtime e)).
 
-Lemma own_task_file c now dst m m' e :
+Lemma own_task_file c ds now dst m m' e :
   c_dry_run c = false -> se_is_dir e = false -> m (se_path e) = dst (se_path e) ->
-  exec_task c now m (plan_entry c dst e) = inl m' ->
-  if needs c dst e then file_post c now dst e (m' (se_path e)) else m' (se_path e) = dst (se_path e).
+  exec_task c now m (plan_entry c ds dst e) = inl m' ->
+  if needs c ds dst e then file_post e (m' (se_path e)) else m' (se_path e) = dst (se_path e).
 Proof.
-  intros Hdry Hd Hm E. unfold needs. unfold exec_task in E. rewrite Hdry in E.
+  intros Hdry Hd Hm E. unfold needs, file_post. unfold exec_task in E. rewrite Hdry in E.
   unfold plan_entry in *. rewrite Hd in *. cbn [t_action t_src t_path] in *.
   destruct (dst (se_path e)) as [[dc dsz dmt|]|] eqn:Ed.
   - set (a := if c_checksum c then if N.eqb dc (se_content e) then ASkip else AUpdate
@@ -202,18 +199,22 @@ Proof.
     + rewrite Hd in E. unfold update_file in E. rewrite Hm in E.
       destruct (N.ltb dsz (c_big c)) eqn:Eb.
       * unfold copy_file, mkdir_parents in E. destruct (mkdirs m (proper_prefixes (se_path e))) as [m1|]; [|discriminate].
-        destruct (m1 (se_path e)) as [[? ? ?|]|]; inversion E; subst; try discriminate; rewrite fs_set_same; (eexists; split; [reflexivity | left; reflexivity]).
-      * inversion E; subst. rewrite fs_set_same. eexists. split; [reflexivity|]. right. split; [reflexivity|]. exists dc, dsz, dmt. split; [exact Ed | exact Eb].
-  - rewrite Hd in E. unfold update_file in E. rewrite Hm in E. discriminate.
+        destruct (m1 (se_path e)) as [[? ? ?|]|]; inversion E; subst; try discriminate; rewrite fs_set_same; reflexivity.
+      * inversion E; subst. rewrite fs_set_same. reflexivity.
+  - set (a := if c_checksum c then AUpdate else if needs_update c e (fst (ds (se_path e))) (snd (ds (se_path e))) then AUpdate else ASkip) in *.
+    assert (Ha : a = ASkip \/ a = AUpdate) by (subst a; destruct (c_checksum c), (needs_update c e (fst (ds (se_path e))) (snd (ds (se_path e)))); auto).
+    destruct Ha as [Ha|Ha]; rewrite Ha in *.
+    + inversion E; subst. rewrite Hm. reflexivity.
+    + rewrite Hd in E. unfold update_file in E. rewrite Hm in E. discriminate.
   - rewrite Hd in E. unfold copy_file, mkdir_parents in E. destruct (mkdirs m (proper_prefixes (se_path e))) as [m1|]; [|discriminate].
-    destruct (m1 (se_path e)) as [[? ? ?|]|]; inversion E; subst; try discriminate; rewrite fs_set_same; (eexists; split; [reflexivity | left; reflexivity]).
+    destruct (m1 (se_path e)) as [[? ? ?|]|]; inversion E; subst; try discriminate; rewrite fs_set_same; reflexivity.
 Qed.
 
-Lemma own_task_dir c now dst m m' e :
+Lemma own_task_dir c ds now dst m m' e :
   c_dry_run c = false -> se_is_dir e = true ->
   (forall cc s t, dst (se_path e) <> Some (File cc s t)) ->           (* no file where the source has a directory *)
   (m (se_path e) = dst (se_path e) \/ m (se_path e) = Some Dir) ->
-  exec_task c now m (plan_entry c dst e) = inl m' -> m' (se_path e) = Some Dir.
+  exec_task c now m (plan_entry c ds dst e) = inl m' -> m' (se_path e) = Some Dir.
 Proof.
   intros Hdry Hd Hnf Hm E. unfold exec_task in E. rewrite Hdry in E. unfold plan_entry in E. rewrite Hd in E. cbn [t_action t_src t_path] in E.
   destruct (dst (se_path e)) as [[cc s t|]|] eqn:Ed.
@@ -275,47 +276,49 @@ Proof.
 Qed.
 
 (* the state of an entry that C01 requires after a successful run *)
-Definition good (c : cfg) (now : Z) (dst : fs) (e : sentry) (x : node) : Prop :=
+Definition good (c : cfg) (ds : path -> N * Z) (now : Z) (dst : fs) (e : sentry) (x : node) : Prop :=
   if se_is_dir e then x = Dir
-  else if needs c dst e then file_post c now dst e (Some x) else Some x = dst (se_path e).
+  else if needs c ds dst e then file_post e (Some x) else Some x = dst (se_path e).
 
-Definition post (c : cfg) (now : Z) (dst : fs) (m : fs) (e : sentry) : Prop :=
-  exists x, m (se_path e) = Some x /\ good c now dst e x.
+Definition post (c : cfg) (ds : path -> N * Z) (now : Z) (dst : fs) (m : fs) (e : sentry) : Prop :=
+  exists x, m (se_path e) = Some x /\ good c ds now dst e x.
 
-Lemma plan_entry_ok c dst e : task_ok (plan_entry c dst e) /\ t_action (plan_entry c dst e) <> ADelete /\ t_path (plan_entry c dst e) = se_path e.
+Lemma plan_entry_ok c ds dst e : task_ok (plan_entry c ds dst e) /\ t_action (plan_entry c ds dst e) <> ADelete /\ t_path (plan_entry c ds dst e) = se_path e.
 Proof.
   unfold plan_entry, task_ok. cbn [t_src t_path t_action]. repeat split.
   destruct (se_is_dir e); destruct (dst (se_path e)) as [[dc dsz dmt|]|]; try discriminate;
-    destruct (c_checksum c), (N.eqb dc (se_content e)), (needs_update c e dsz dmt); discriminate.
+    try (destruct (c_checksum c), (N.eqb dc (se_content e)), (needs_update c e dsz dmt); discriminate).
+  destruct (c_checksum c); [discriminate|]. destruct (needs_update c e (fst (ds (se_path e))) (snd (ds (se_path e)))); discriminate.
 Qed.
 
-Lemma skip_means_file c dst e : se_is_dir e = false -> needs c dst e = false ->
+Lemma skip_means_file c ds dst e : se_is_dir e = false -> dst (se_path e) <> Some Dir -> needs c ds dst e = false ->
   exists dc dsz dmt, dst (se_path e) = Some (File dc dsz dmt).
 Proof.
-  unfold needs, plan_entry. intros Hd. rewrite Hd. cbn [t_action].
-  destruct (dst (se_path e)) as [[dc dsz dmt|]|]; [eauto | discriminate | discriminate].
+  unfold needs, plan_entry. intros Hd Hnd. rewrite Hd. cbn [t_action].
+  destruct (dst (se_path e)) as [[dc dsz dmt|]|]; [eauto | congruence | discriminate].
 Qed.
 
-Lemma src_tasks_post c now dst : c_dry_run c = false ->
+Lemma src_tasks_post c ds now dst : c_dry_run c = false ->
   forall todo done m mf,
     src_wf (done ++ todo) ->
     (forall e, In e (done ++ todo) -> se_is_dir e = true -> forall cc s t, dst (se_path e) <> Some (File cc s t)) ->
-    (forall e, In e done -> post c now dst m e) ->
+    (forall e, In e (done ++ todo) -> se_is_dir e = false -> dst (se_path e) <> Some Dir) ->
+    (forall e, In e done -> post c ds now dst m e) ->
     (forall e, In e todo -> m (se_path e) = dst (se_path e) \/ (se_is_dir e = true /\ m (se_path e) = Some Dir)) ->
-    exec_seq c now m (map (plan_entry c dst) todo) = Some mf ->
-    forall e, In e (done ++ todo) -> post c now dst mf e.
+    exec_seq c now m (map (plan_entry c ds dst) todo) = Some mf ->
+    forall e, In e (done ++ todo) -> post c ds now dst mf e.
 Proof.
-  intros Hdry. induction todo as [|e0 todo IH]; intros done m mf Hwf Hnf Hdone Htodo E e He.
+  intros Hdry. induction todo as [|e0 todo IH]; intros done m mf Hwf Hnf Hnd2 Hdone Htodo E e He.
   - cbn in E. inversion E; subst. rewrite app_nil_r in He. apply Hdone. exact He.
-  - cbn [map exec_seq] in E. destruct (exec_task c now m (plan_entry c dst e0)) as [m1|] eqn:E0; [|discriminate].
-    destruct (plan_entry_ok c dst e0) as (Hok & Hnd & Hp).
+  - cbn [map exec_seq] in E. destruct (exec_task c now m (plan_entry c ds dst e0)) as [m1|] eqn:E0; [|discriminate].
+    destruct (plan_entry_ok c ds dst e0) as (Hok & Hnd & Hp).
     assert (Hwf' : src_wf ((done ++ [e0]) ++ todo)) by (rewrite <- app_assoc; exact Hwf).
     assert (He' : In e ((done ++ [e0]) ++ todo)) by (rewrite <- app_assoc; exact He).
     destruct Hwf as (Hnd_paths & Hne & Hfile & Hclosed).
     assert (Hdistinct : forall e1, In e1 (done ++ todo) -> se_path e1 <> se_path e0).
     { intros e1 H1 Eq. unfold paths_of in Hnd_paths. rewrite map_app in Hnd_paths. cbn [map] in Hnd_paths.
       apply NoDup_remove_2 in Hnd_paths. apply Hnd_paths. rewrite <- Eq. rewrite <- map_app. apply in_map. exact H1. }
-    apply (IH (done ++ [e0]) m1 mf Hwf'); [intros; eapply Hnf; [rewrite <- app_assoc in *|]; eassumption | | | exact E | exact He'].
+    apply (IH (done ++ [e0]) m1 mf Hwf'); [intros; eapply Hnf; [rewrite <- app_assoc in *|]; eassumption | intros; eapply Hnd2; [rewrite <- app_assoc in *|]; eassumption | | | exact E | exact He'].
     + (* entries already done keep their state; e0 reaches it *)
       intros e1 H1. apply in_app_or in H1. destruct H1 as [H1|[H1|[]]].
       * destruct (Hdone e1 H1) as (x & Hx & Hg). exists x. split; [|exact Hg].
@@ -327,15 +330,15 @@ Proof.
            eapply own_task_dir; try eassumption; [intros; eapply Hnf; eassumption|].
            destruct (Htodo e0 (or_introl eq_refl)) as [H|[_ H]]; [left|right]; exact H.
         -- destruct (Htodo e0 (or_introl eq_refl)) as [Hm|[Hcontra _]]; [|congruence].
-           pose proof (own_task_file c now dst m m1 e0 Hdry Hd Hm E0) as Hown. unfold post, good. rewrite Hd.
-           destruct (needs c dst e0) eqn:En.
-           ++ destruct Hown as (mt & Hx & Hrest). eexists. split; [exact Hx|]. exists mt. split; [reflexivity | exact Hrest].
-           ++ destruct (skip_means_file c dst e0 Hd En) as (dc & dsz & dmt & Ed). exists (File dc dsz dmt). rewrite Hown, Ed. split; reflexivity.
+           pose proof (own_task_file c ds now dst m m1 e0 Hdry Hd Hm E0) as Hown. unfold post, good. rewrite Hd.
+           destruct (needs c ds dst e0) eqn:En.
+           ++ unfold file_post in Hown. eexists. split; [exact Hown | reflexivity].
+           ++ destruct (skip_means_file c ds dst e0 Hd (Hnd2 e0 Hin0 Hd) En) as (dc & dsz & dmt & Ed). exists (File dc dsz dmt). rewrite Hown, Ed. split; reflexivity.
     + (* entries still to do are untouched, or (directories) already created *)
       intros e1 H1.
       assert (Hin1 : In e1 (done ++ e0 :: todo)) by (apply in_or_app; right; right; exact H1).
       assert (Hin0 : In e0 (done ++ e0 :: todo)) by (apply in_or_app; right; left; reflexivity).
-      assert (Hq : se_path e1 <> t_path (plan_entry c dst e0)).
+      assert (Hq : se_path e1 <> t_path (plan_entry c ds dst e0)).
       { rewrite Hp. apply Hdistinct. apply in_or_app. right. exact H1. }
       destruct (Htodo e1 (or_intror H1)) as [Hm|[Hd Hm]].
       * destruct (m (se_path e1)) as [x|] eqn:Ex.
@@ -358,9 +361,9 @@ Qed.
 Definition del_task_ok (src : list sentry) (t : task) : Prop :=
   t_action t = ADelete /\ t_src t = None /\ t_path t <> [] /\ ~ In (t_path t) (paths_of src).
 
-Lemma dels_preserve c now dst src : src_wf src ->
+Lemma dels_preserve c ds now dst src : src_wf src ->
   forall dels m mf, (forall t, In t dels -> del_task_ok src t) -> exec_seq c now m dels = Some mf ->
-  forall e, In e src -> post c now dst m e -> post c now dst mf e.
+  forall e, In e src -> post c ds now dst m e -> post c ds now dst mf e.
 Proof.
   intros (Hnd & Hne & Hfile & Hclosed). induction dels as [|t dels IH]; intros m mf Hall E e He Hpost.
   - cbn in E. inversion E; subst. exact Hpost.
@@ -390,25 +393,26 @@ Proof.
 Qed.
 
 (* ---------- C01: postcondition of a successful run ---------- *)
-Theorem run_post refuse c now U src dst :
+Theorem run_post refuse ds c now U src dst :
   src_wf src -> c_dry_run c = false -> dst [] = None ->
   (forall e, In e src -> se_is_dir e = true -> forall cc s t, dst (se_path e) <> Some (File cc s t)) ->
-  let r := run refuse c now U src dst in
+  (forall e, In e src -> se_is_dir e = false -> dst (se_path e) <> Some Dir) ->
+  let r := run refuse ds c now U src dst in
   r_refused r = false -> r_errors r = [] ->
-  forall e, In e src -> post c now dst (r_fs r) e.
+  forall e, In e src -> post c ds now dst (r_fs r) e.
 Proof.
-  intros Hwf Hdry Hroot Hnf r Href Herr e He. subst r. unfold run in *. cbv zeta in *.
+  intros Hwf Hdry Hroot Hnf Hnd2 r Href Herr e He. subst r. unfold run in *. cbv zeta in *.
   set (listing := filter (fun p => match dst p with Some _ => true | None => false end) U) in *.
   set (dels := if c_delete c then plan_deletions src listing else []) in *.
   match type of Href with context [if ?b then _ else _] => destruct b eqn:Eb end; [cbn in Href; discriminate|].
   destruct (exec_all_noerr _ _ _ _ _ _ Herr) as [_ Eseq].
   rewrite exec_seq_app in Eseq.
-  destruct (exec_seq c now dst (map (plan_entry c dst) src)) as [m1|] eqn:E1; [|discriminate].
-  apply (dels_preserve c now dst src Hwf dels m1); [| exact Eseq | exact He |].
+  destruct (exec_seq c now dst (map (plan_entry c ds dst) src)) as [m1|] eqn:E1; [|discriminate].
+  apply (dels_preserve c ds now dst src Hwf dels m1); [| exact Eseq | exact He |].
   - intros t Ht. subst dels. destruct (c_delete c); [|destruct Ht].
     eapply plan_deletions_ok; [exact Hroot | | exact Ht].
     intros p Hp. subst listing. apply filter_In in Hp. destruct Hp as [_ Hp]. destruct (dst p); [discriminate | discriminate].
-  - apply (src_tasks_post c now dst Hdry src [] dst m1); try assumption; [intros e1 [] | intros e1 _; left; reflexivity].
+  - apply (src_tasks_post c ds now dst Hdry src [] dst m1); try assumption; [intros e1 [] | intros e1 _; left; reflexivity].
 Qed.
 
 (* ---------- C07 / C08: refusal and dry-run leave the destination as it was ---------- *)
@@ -418,30 +422,30 @@ Proof.
   cbn [exec_all]. unfold exec_task. rewrite Hdry. apply IH.
 Qed.
 
-Theorem dry_run_changes_nothing refuse c now U src dst :
-  c_dry_run c = true -> r_fs (run refuse c now U src dst) = dst.
+Theorem dry_run_changes_nothing refuse ds c now U src dst :
+  c_dry_run c = true -> r_fs (run refuse ds c now U src dst) = dst.
 Proof.
   intro Hdry. unfold run. match goal with |- context [if ?b then _ else _] => destruct b end; [reflexivity | apply exec_all_dry; exact Hdry].
 Qed.
 
-Theorem refusal_changes_nothing refuse c now U src dst :
-  r_refused (run refuse c now U src dst) = true ->
-  r_fs (run refuse c now U src dst) = dst /\ exit_status c (run refuse c now U src dst) = 1%Z /\ r_events (run refuse c now U src dst) = [].
+Theorem refusal_changes_nothing refuse ds c now U src dst :
+  r_refused (run refuse ds c now U src dst) = true ->
+  r_fs (run refuse ds c now U src dst) = dst /\ exit_status c (run refuse ds c now U src dst) = 1%Z /\ r_events (run refuse ds c now U src dst) = [].
 Proof.
   unfold run. match goal with |- context [if ?b then _ else _] => destruct b eqn:Eb end.
   - intros _. repeat split.
-  - intro H. exfalso. revert H. generalize (map (plan_entry c dst) src ++ (if c_delete c then plan_deletions src (filter (fun p => match dst p with Some _ => true | None => false end) U) else [])).
+  - intro H. exfalso. revert H. generalize (map (plan_entry c ds dst) src ++ (if c_delete c then plan_deletions src (filter (fun p => match dst p with Some _ => true | None => false end) U) else [])).
     intro ts. generalize (@nil (path * eaction * err)) (@nil (eaction * path)). generalize dst.
     induction ts as [|t ts IH]; intros m errs evs; cbn [exec_all]; [cbn; discriminate|].
     destruct (exec_task c now m t); apply IH.
 Qed.
 
-Theorem refuses_when_guard_fires refuse c now U src dst :
+Theorem refuses_when_guard_fires refuse ds c now U src dst :
   let listing := filter (fun p => match dst p with Some _ => true | None => false end) U in
   let dels := plan_deletions src listing in
   c_delete c = true -> c_force_delete c = false -> dels <> [] ->
   refuse (Z.of_nat (length dels)) (Z.of_nat (length listing)) (c_threshold c) = true ->
-  r_refused (run refuse c now U src dst) = true.
+  r_refused (run refuse ds c now U src dst) = true.
 Proof.
   intros listing dels Hd Hf Hne Hr. unfold run. fold listing. rewrite Hd. fold dels. rewrite Hf, Hr. cbn [negb andb].
   destruct dels; [congruence | reflexivity].
@@ -459,13 +463,96 @@ Proof.
   - apply IH; [intros t' Ht'; apply Hall; right; exact Ht' | exact Hx].
 Qed.
 
-Theorem no_delete_no_loss refuse c now U src dst q x :
+Theorem no_delete_no_loss refuse ds c now U src dst q x :
   c_delete c = false -> ~ In q (paths_of src) -> dst q = Some x ->
-  r_fs (run refuse c now U src dst) q = Some x.
+  r_fs (run refuse ds c now U src dst) q = Some x.
 Proof.
   intros Hd Hq Hx. unfold run. rewrite Hd. cbn [andb]. rewrite app_nil_r.
   apply exec_all_keeps; [|exact Hx].
   intros t Ht. apply in_map_iff in Ht. destruct Ht as (e & <- & He).
-  destruct (plan_entry_ok c dst e) as (Hok & Hnd & Hp). repeat split; try assumption.
+  destruct (plan_entry_ok c ds dst e) as (Hok & Hnd & Hp). repeat split; try assumption.
   rewrite Hp. intro Eq. apply Hq. rewrite <- Eq. unfold paths_of. apply in_map. exact He.
+Qed.
+
+(* ---------- deletions: never an error, never create anything ---------- *)
+Lemma delete_effect c now m t :
+  c_dry_run c = false -> t_action t = ADelete ->
+  exists m', exec_task c now m t = inl m' /\ m' (t_path t) = None /\ (forall q, m q = None -> m' q = None).
+Proof.
+  intros Hdry Ha. unfold exec_task. rewrite Hdry, Ha.
+  assert (E : (match t_src t with | Some _ | None => match m (t_path t) with None => inl m | Some _ => remove m (t_path t) end end : fs + err)
+              = match m (t_path t) with None => inl m | Some _ => remove m (t_path t) end) by (destruct (t_src t); reflexivity).
+  destruct (t_src t); unfold remove; destruct (m (t_path t)) as [[? ? ?|]|] eqn:Ed; eexists; (split; [reflexivity|]); split;
+    try (rewrite fs_set_same; reflexivity); try exact Ed;
+    try (intros q Hq; unfold fs_set; destruct (peqb q (t_path t)); [reflexivity | exact Hq]);
+    try (rewrite (proj2 (pprefix_spec (t_path t) (t_path t)) (ex_intro _ [] (eq_sym (app_nil_r _)))); reflexivity);
+    try (intros q Hq; destruct (pprefix (t_path t) q); [reflexivity | exact Hq]); try (intros q Hq; exact Hq).
+Qed.
+
+Lemma dels_never_fail c now : c_dry_run c = false -> forall ds m, (forall t, In t ds -> t_action t = ADelete) ->
+  exists mf, exec_seq c now m ds = Some mf /\
+             forall q, (In q (map t_path ds) \/ m q = None) -> mf q = None.
+Proof.
+  intros Hdry. induction ds as [|t ds IH]; intros m Hall.
+  - exists m. split; [reflexivity|]. intros q [[]|H]; exact H.
+  - destruct (delete_effect c now m t Hdry (Hall t (or_introl eq_refl))) as (m1 & E1 & Hp & Hnone).
+    destruct (IH m1 (fun t' Ht' => Hall t' (or_intror Ht'))) as (mf & Ef & Hq).
+    exists mf. split; [cbn [exec_seq]; rewrite E1; exact Ef|].
+    intros q [[<-|Hin]|Hn]; apply Hq; [right; exact Hp | left; exact Hin | right; apply Hnone; exact Hn].
+Qed.
+
+(* a path outside the source listing that does not exist stays absent through the create/update tasks *)
+Lemma src_tasks_keep_absent c ds now dst : forall todo m mf q,
+  (forall e a, In e todo -> proper a (se_path e) -> a <> q) -> (forall e, In e todo -> se_path e <> q) ->
+  m q = None -> exec_seq c now m (map (plan_entry c ds dst) todo) = Some mf -> mf q = None.
+Proof.
+  induction todo as [|e0 todo IH]; intros m mf q Hanc Hne Hm E.
+  - cbn in E. inversion E; subst. exact Hm.
+  - cbn [map exec_seq] in E. destruct (exec_task c now m (plan_entry c ds dst e0)) as [m1|] eqn:E0; [|discriminate].
+    destruct (plan_entry_ok c ds dst e0) as (Hok & Hnd & Hp).
+    apply (IH m1 mf q); [intros e a He; apply Hanc; right; exact He | intros e He; apply Hne; right; exact He | | exact E].
+    assert (Hq : q <> t_path (plan_entry c ds dst e0)) by (rewrite Hp; intro Eq; apply (Hne e0 (or_introl eq_refl)); congruence).
+    destruct (exec_task_none c now m _ m1 q Hok Hnd E0 Hq Hm) as [Hn|Hd]; [exact Hn|].
+    exfalso. pose proof (exec_task_created_is_ancestor c now m _ m1 q Hok Hnd E0 Hq Hm Hd) as Hpr. rewrite Hp in Hpr.
+    exact (Hanc e0 q (or_introl eq_refl) Hpr eq_refl).
+Qed.
+
+(* ---------- C06: exact mirror ---------- *)
+Theorem mirror refuse ds c now U src dst :
+  src_wf src -> c_dry_run c = false -> c_delete c = true -> dst [] = None ->
+  (forall e, In e src -> se_is_dir e = true -> forall cc s t, dst (se_path e) <> Some (File cc s t)) ->
+  (forall e, In e src -> se_is_dir e = false -> dst (se_path e) <> Some Dir) ->
+  let r := run refuse ds c now U src dst in
+  r_refused r = false -> r_errors r = [] ->
+  forall q, In q U -> (r_fs r q <> None <-> In q (paths_of src)).
+Proof.
+  intros Hwf Hdry Hdel Hroot Hnf Hnd2 r Href Herr q HqU. split.
+  - (* nothing outside the source listing survives *)
+    intro Hsome. destruct (in_dec (list_eq_dec N.eq_dec) q (paths_of src)) as [Hin|Hnin]; [exact Hin|]. exfalso. apply Hsome.
+    subst r. unfold run in *. cbv zeta in *. rewrite Hdel in *.
+    match type of Href with context [if ?b then _ else _] => destruct b eqn:Eb end; [cbn in Href; discriminate|].
+    destruct (exec_all_noerr _ _ _ _ _ _ Herr) as [_ Eseq]. cbv iota beta in Eseq. rewrite exec_seq_app in Eseq.
+    destruct (exec_seq c now dst (map (plan_entry c ds dst) src)) as [m1|] eqn:E1; [|discriminate].
+    destruct (dels_never_fail c now Hdry (plan_deletions src (filter (fun p => match dst p with Some _ => true | None => false end) U)) m1) as (mf & Ef & Hq).
+    { intros t Ht. unfold plan_deletions in Ht. apply in_map_iff in Ht. destruct Ht as (p & <- & _). reflexivity. }
+    pose proof (eq_trans (eq_sym Ef) Eseq) as Emf. injection Emf as Emf. rewrite <- Emf. apply Hq.
+    destruct (dst q) as [x|] eqn:Edq.
+    + left. unfold plan_deletions. rewrite map_map. cbn [t_path]. rewrite map_id. apply filter_In. split.
+      * apply filter_In. split; [exact HqU | rewrite Edq; reflexivity].
+      * apply negb_true_iff. destruct (existsb (fun e => peqb (se_path e) q) src) eqn:Ex; [|reflexivity].
+        exfalso. apply existsb_exists in Ex. destruct Ex as (e & He & Ee). apply peqb_eq in Ee. apply Hnin. rewrite <- Ee. unfold paths_of. apply in_map. exact He.
+    + right. destruct Hwf as (_ & _ & _ & Hclosed).
+      apply (src_tasks_keep_absent c ds now dst src dst m1 q); [| | exact Edq | exact E1].
+      * intros e a He Hpr Eq. subst a. destruct (Hclosed e q He Hpr) as (d & Hd & Hdp & _). apply Hnin. rewrite <- Hdp. unfold paths_of. apply in_map. exact Hd.
+      * intros e He Eq. apply Hnin. rewrite <- Eq. unfold paths_of. apply in_map. exact He.
+  - intro Hin. unfold paths_of in Hin. apply in_map_iff in Hin. destruct Hin as (e & <- & He).
+    destruct (run_post refuse ds c now U src dst Hwf Hdry Hroot Hnf Hnd2 Href Herr e He) as (x & Hx & _). fold r in Hx. congruence.
+Qed.
+
+(* ---------- C10: truthful exit status ---------- *)
+Theorem exit0_no_errors c r : exit_status c r = 0%Z -> r_refused r = false /\ r_errors r = [].
+Proof.
+  unfold exit_status. destruct (r_refused r); [discriminate|].
+  destruct (negb (N.eqb (c_max_errors c) 0) && N.leb (c_max_errors c) (N.of_nat (length (r_errors r)))); [discriminate|].
+  destruct (r_errors r); [split; reflexivity | discriminate].
 Qed.
